@@ -21,21 +21,32 @@ from tower import SYM
 # --------------------------------------------------------------------------
 # callee-name normalisation
 
-def norm_callee(c):
+def norm_types(c):
+    """canonical type names: inner field types Fq/Fr/Fq2/Fq4/Fq12, generic group G, lib.rs newtype wrappers L<name>"""
     c = re.sub(r"'\w+ ", '', c)                 # lifetimes
-    c = re.sub(r'\b(?:fields::)?fp::(Fq|Fr)\b', r'\1', c)
-    c = re.sub(r'\b(?:fields::)?fq2::Fq2\b', 'Fq2', c)
-    c = re.sub(r'\b(?:fields::)?fq4::Fq4\b', 'Fq4', c)
-    c = re.sub(r'\b(?:fields::)?fq12::Fq12\b', 'Fq12', c)
-    c = re.sub(r'\bfields::(Fq12|Fq4|Fq2|Fq|Fr)\b', r'\1', c)
+    c = c.replace('@', '\x02')
+    c = re.sub(r'\b(?:fields::)?fp::(Fq|Fr)\b', r'@\1@', c)
+    c = re.sub(r'\b(?:fields::)?fq2::Fq2\b', '@Fq2@', c)
+    c = re.sub(r'\b(?:fields::)?fq4::Fq4\b', '@Fq4@', c)
+    c = re.sub(r'\b(?:fields::)?fq12::Fq12\b', '@Fq12@', c)
+    c = re.sub(r'\bfields::(Fq12|Fq4|Fq2|Fq|Fr)\b', r'@\1@', c)
+    c = re.sub(r'\bgroups::(G1|G2)\b', r'G<\1Params>', c)
+    c = re.sub(r'\bgroups::(AffineG1|AffineG2)\b', r'AffineG<\1>', c)
     c = re.sub(r'\bgroups::', '', c)
+    # bare names are the lib.rs newtype wrappers (Fq4 / Fq12 have no wrapper)
+    c = re.sub(r'(?<![@\w:])(Fq2|Fq|Fr|G1|G2|Gt|AffineG1|AffineG2)(?![\w@<])', r'L\1', c)
+    c = c.replace('@', '').replace('\x02', '@')
+    return c
+
+def norm_callee(c):
+    c = norm_types(c)
     c = re.sub(r'\bark_ff::', '', c)
     c = re.sub(r'\bnum_traits::', '', c)
     c = re.sub(r'\bcore::(?:ops|cmp|option|result|convert)::', '', c)
     c = re.sub(r'\bops::', '', c)
     c = re.sub(r'\bpairings::<impl (Fq12)>::pow\b', r'Fq12::pow_u128', c)
-    c = re.sub(r'\bpairings::<impl (\w+)>::', r'\1::', c)
     c = re.sub(r'\bpairings::<impl G<G2Params>>::', 'G2::', c)
+    c = re.sub(r'\bpairings::<impl (\w+)>::', r'\1::', c)
     c = c.replace('<P as GroupParams>::Base', 'Base')
     c = re.sub(r'<(G1Params|G2Params) as GroupParams>::Base', 'Base', c)
     return c
@@ -122,8 +133,41 @@ class Contracts:
                 if r is not None:
                     self.used.append((c, 'extra:' + pat))
                     return r
+        # ---- uninterpreted callees (delegation obligations): the caller is verified to *be* the stated composition
+        for pat, kind in self.extra.get('__uf__', []):
+            if re.search(pat, c):
+                ca = tuple(canon(interp, st, x) for x in args)
+                self.used.append((c, 'uninterpreted:' + kind))
+                if kind == 'val':
+                    return [(st, ('uf', c, ca))]
+                if kind == 'unit':
+                    st.notes.append(('ufcall', c, ca))
+                    return [(st, S('()', []))]
+                if kind == 'bool':
+                    s1 = st.fork(); s1.notes.append(('ufb', c, ca, True))
+                    s2 = st.fork(); s2.notes.append(('ufb', c, ca, False))
+                    return [(s1, B(True)), (s2, B(False))]
+                if kind in ('opt', 'res'):
+                    s1 = st.fork(); s1.notes.append(('ufo', c, ca, None))
+                    s2 = st.fork()
+                    s2.facts.fresh += 1
+                    k = s2.facts.fresh
+                    s2.notes.append(('ufo', c, ca, k))
+                    none = NONE if kind == 'opt' else ('enum', 'Err', [('uf', 'err:' + c, ca)])
+                    return [(s1, none), (s2, ('enum', 'Some' if kind == 'opt' else 'Ok', [('ufp', k)]))]
         a = [unref(interp, st, x) for x in args]
         ty = self.ring_ty(c)
+        # ---- coordinate accessors of the group types
+        m = re.match(r'^(G|AffineG)::<\w+>::(x|y|z)$', c)
+        if m and is_struct(a[0]):
+            return [(st, ('ref', a[0][2]['xyz'.index(m.group(2))]))]
+        m = re.match(r'^<(LG1|LG2) as (Add|Sub|Neg|Mul<LFr>)>::(add|sub|neg|mul)$', c)
+        if m:
+            # contract of the lib.rs group wrappers (their own delegation obligations): wrap(inner op(unwrapped))
+            P = 'G1Params' if m.group(1) == 'LG1' else 'G2Params'
+            tr = {'Mul<LFr>': 'Mul<Fr>'}.get(m.group(2), m.group(2))
+            ia = tuple(canon(interp, st, x[2][0] if is_struct(x) and x[1].startswith('L') else x) for x in a)
+            return [(st, S(m.group(1), [('uf', '<G<%s> as %s>::%s' % (P, tr, m.group(3)), ia)]))]
         meth = re.sub(r'::<[^:]*>$', '', c).split('::')[-1]
         meth = re.sub(r'<.*$', '', meth)
 
@@ -179,6 +223,26 @@ class Contracts:
         if re.search(r'as Clone>::clone$', c):
             return [(st, a[0])]
 
+        # ---- lib.rs newtypes over field elements: contract = inner contract on the wrapped value
+        if ty in ('LFq', 'LFr', 'LFq2'):
+            inner = ty[1:]
+            def unw(v):
+                return v[2][0] if (is_struct(v) and v[1] == ty) else v
+            ia = [unw(x) for x in a]
+            r = self.field_op(interp, st, inner, meth, c, ia, args)
+            if r is not None:
+                self.used.append((c, 'newtype:%s::%s' % (ty, meth)))
+                out = []
+                for s2, v in r:
+                    if meth in ('is_zero', 'is_one', 'eq', 'ne') or (isinstance(v, tuple) and v and v[0] in ('bool',)):
+                        out.append((s2, v))
+                    elif isinstance(v, tuple) and v and v[0] == 'enum':
+                        out.append((s2, ('enum', v[1], [S(ty, [x]) for x in v[2]])))
+                    elif meth in ('mul_assign', 'add_assign', 'sub_assign'):
+                        out.append((s2, v))
+                    else:
+                        out.append((s2, S(ty, [v])))
+                return out
         # ---- ring / tower operations
         if ty in FIELD_TYS:
             r = self.field_op(interp, st, ty, meth, c, a, args)
@@ -229,7 +293,8 @@ class Contracts:
                 v = h(self, interp, st, fn[1], o[2][0])
                 return [(st, ('enum', wrap, [v]))]
             # tuple-struct constructor such as `Fq`, `Gt`
-            return [(st, ('enum', wrap, [S(fn[1].split('::')[-1], [o[2][0]])]))]
+            from interp import short_ty
+            return [(st, ('enum', wrap, [S(short_ty(fn[1]), [o[2][0]])]))]
         raise Unsupported("Option::map with " + str(fn[0]))
 
     def opt_and_then(self, interp, st, args):
@@ -471,3 +536,36 @@ def frobenius_spec(A, ty, x, code, q):
     y = frob_fq4_plain(A, x, k, q)
     c0, c1 = y[2]
     return tower.mk('Fq4', [A.mul('Fq2', c0, gamma), A.mul('Fq2', c1, gamma)])
+
+
+def canon(interp, st, v):
+    """value with references resolved (for uninterpreted-function terms)"""
+    v = unref(interp, st, v)
+    if is_struct(v):
+        return ('struct', v[1], [canon(interp, st, x) for x in v[2]])
+    if isinstance(v, tuple) and v and v[0] == 'enum':
+        return ('enum', v[1], [canon(interp, st, x) for x in v[2]])
+    return v
+
+def same_value(st, a, b):
+    """semantic equality of two interpreter values under the path facts"""
+    if isinstance(a, Poly) or isinstance(b, Poly):
+        if not (isinstance(a, Poly) and isinstance(b, Poly)):
+            return False
+        return st.facts.is_zero(a - b)
+    if isinstance(a, tuple) and isinstance(b, tuple):
+        if not a or not b or a[0] != b[0]:
+            # expected-side pattern for uninterpreted terms
+            if a and b and {a[0], b[0]} == {'uf', 'ufx'}:
+                x, y = (a, b) if a[0] == 'ufx' else (b, a)
+                return bool(re.search(x[1], y[1])) and len(x[2]) == len(y[2]) and all(same_value(st, p, q) for p, q in zip(x[2], y[2]))
+            return False
+        k = a[0]
+        if k in ('struct', 'enum'):
+            return a[1] == b[1] and len(a[2]) == len(b[2]) and all(same_value(st, p, q) for p, q in zip(a[2], b[2]))
+        if k == 'uf':
+            return a[1] == b[1] and len(a[2]) == len(b[2]) and all(same_value(st, p, q) for p, q in zip(a[2], b[2]))
+        if k in ('ref',):
+            return same_value(st, a[1], b[1])
+        return a == b
+    return a == b
